@@ -12,13 +12,14 @@
     strip_is_norm_of_runs merge_only_unobservable_partial strip_only_whitespace_partial
     wsNorm_deletes_only_ws noescape_agree_html_vocab strip_namespace_witness
     preserve_table_is_spec noescape_table_is_spec
-    wsNorm_absorbs strip_only_whitespace_global_partial
+    wsNorm_absorbs strip_only_whitespace_global_partial wsNorm_commutes_with_escape
 -/
 import Genshi.Lemmas.Output
 import Genshi.Lemmas.OutputFlatten
 import Genshi.Lemmas.OutputWs
 import Genshi.Lemmas.OutputWsDoctype
 import Genshi.Lemmas.OutputWsGlobal
+import Genshi.Lemmas.OutputSafeText
 import Genshi.Model.OutputPipeline
 namespace Genshi.Props.C09
 open Genshi Genshi.Output
@@ -319,6 +320,13 @@ theorem strip_only_whitespace_partial (m : Method) (cache dropd : Bool) (dt : Op
 /-- The normal form of a whole text absorbs the normal form of any part of it. -/
 theorem wsNorm_absorbs (A R B : Str) : wsNorm (A ++ (wsNorm R ++ B)) = wsNorm (A ++ (R ++ B)) :=
   wsNorm_absorb A R B
+
+/-- Escaping and the white-space normal form commute (the filter normalises *after* escaping, the
+    property speaks about the text): what the filter hands on for escaped text is the escape of the
+    normalised text. -/
+theorem wsNorm_commutes_with_escape (x : Str) :
+    wsNorm (Escape.escapePy false x) = Escape.escapePy false (wsNorm x) := by
+  rw [Escape.escapePy_eq_spec, Escape.escapePy_eq_spec]; exact wsNorm_escape x
 
 theorem renderWith_rel (n1 n2 : Bool → Str → Str) (h : ∀ p x, WsEq (n1 p x) (n2 p x)) (m : Method)
     (dropd : Bool) (dt : Option DocTypeT) (s : Stream) :
